@@ -47,6 +47,10 @@ static bool body_div(const Case &c, Ctx &ctx)
     if (ref::mul(Goldilocks::toU64(out), b) != a % PR) return ctx.fail("div(" + hx(a) + "," + hx(b) + ") = " + hx(out.fe) + ": times b gives " + hx(ref::mul(out.fe, b)));
     E r = Goldilocks::div(ea, eb), r2 = ea / eb;
     if (Goldilocks::toU64(r) != Goldilocks::toU64(out) || Goldilocks::toU64(r2) != Goldilocks::toU64(out)) return ctx.fail("div return/operator form differs");
+    // in-place division: the result may be the dividend's or the divisor's own object
+    { E x = {a}, y = {b}; Goldilocks::div(x, x, y); if (Goldilocks::toU64(x) != Goldilocks::toU64(out)) return ctx.fail("div(x, x, y) (result aliases the dividend): got " + hx(Goldilocks::toU64(x)) + " want " + hx(Goldilocks::toU64(out)) + " for a=" + hx(a) + " b=" + hx(b));
+      E x2 = {a}, y2 = {b}; Goldilocks::div(y2, x2, y2); if (Goldilocks::toU64(y2) != Goldilocks::toU64(out)) return ctx.fail("div(y, x, y) (result aliases the divisor): got " + hx(Goldilocks::toU64(y2)) + " for a=" + hx(a) + " b=" + hx(b));
+      ctx.cls("div:aliased-forms"); }
     E p = {other_rep(a)}, q = {other_rep(b)};
     if (Goldilocks::toU64(Goldilocks::div(p, q)) != Goldilocks::toU64(out)) return ctx.fail("div depends on the representative");
     return true;
